@@ -154,6 +154,78 @@ impl Leg for Python {
     }
 }
 
+/// giant sequences (66 000 bases to millions; periodic, homopolymer, pseudo-random, with a few foreign
+/// bytes): positions and clean runs beyond 2^16 / 2^20 / 2^24, through the core iterator (item by item
+/// against the model's streaming enumeration) and through pykmertools.KmerGenerator (count + digest)
+#[derive(Clone, Debug, Serialize, Deserialize)]
+pub struct GiantCase {
+    pub giant: gen::Giant,
+    pub k: usize,
+    pub python: bool,
+}
+
+pub struct Giants;
+impl Leg for Giants {
+    type Case = GiantCase;
+    const NAME: &'static str = "giant-sequences";
+    fn strategy(tier: Tier) -> BoxedStrategy<GiantCase> {
+        let hi = tier.pick(2_300_000, 17_500_000);
+        let edits: Vec<u8> = b"ACGTacgtuUNNNn-*RY\x04\x7f\x80\xc1\xff".to_vec();
+        (gen::k_strategy(), prop_oneof![2 => gen::giant(66_000, hi, edits.clone()), 1 => gen::giant_random(66_000, hi, edits.clone())], prop::bool::weighted(0.3))
+            .prop_map(|(k, giant, python)| {
+                // the Python leg gets ASCII edits only (its string must be valid UTF-8) and unit-based giants
+                let python = python && giant.rand_seed.is_none() && giant.edits.iter().all(|e| e.1 < 0x80);
+                GiantCase { giant, k, python }
+            })
+            .boxed()
+    }
+    fn check(c: &GiantCase) -> Verdict {
+        let mut v = Verdict::new();
+        let seq = c.giant.expand();
+        v.class(c.giant.label());
+        v.class(if c.python { "giant-python" } else { "giant-library" });
+        v.class_if(c.k >= 16, "k>=16");
+        if c.python {
+            let (mut n, mut h) = (0u64, 0u64);
+            model::for_each_window(&seq, c.k, |_, f, r| {
+                h = h.wrapping_mul(1000003).wrapping_add(f.wrapping_mul(31)).wrapping_add(r);
+                n += 1;
+            });
+            v.nontrivial = n > 0;
+            match crate::pyworker::ask(&serde_json::json!({"op": "kmers_digest", "k": c.k, "giant": c.giant.to_json()})) {
+                Err(e) => crate::pyworker::record_error(&mut v, e),
+                Ok(r) => {
+                    let got = r["ok"].as_array().map(|a| (a.first().and_then(|x| x.as_u64()), a.get(1).and_then(|x| x.as_u64())));
+                    if got != Some((Some(n), Some(h))) {
+                        v.fail("python-giant-iterator-differs", format!("pykmertools.KmerGenerator on {} bases, k={}: (count, digest) = {} but the model has ({}, {})", seq.len(), c.k, crate::util::trunc(&r.to_string(), 120), n, h));
+                    }
+                }
+            }
+            return v;
+        }
+        let mut it = KmerGenerator::new(&seq, c.k);
+        let mut i = 0u64;
+        let mut bad: Option<String> = None;
+        model::for_each_window(&seq, c.k, |p, f, r| {
+            if bad.is_some() {
+                return;
+            }
+            match it.next() {
+                Some((gf, gr)) if gf == f && gr == r => {}
+                other => bad = Some(format!("item {} (window at {}): iterator gives {:?}, model ({}, {})", i, p, other, f, r)),
+            }
+            i += 1;
+        });
+        v.nontrivial = i > 0;
+        if let Some(m) = bad {
+            v.fail("giant-item-differs", format!("{} bases, k={}: {}", seq.len(), c.k, m));
+        } else if let Some(extra) = it.next() {
+            v.fail("giant-extra-item", format!("{} bases, k={}: the iterator yields {:?} after the model's {} windows", seq.len(), c.k, extra, i));
+        }
+        v
+    }
+}
+
 /// first calls of a fresh process made by several threads at once
 pub struct Cold;
 impl Leg for Cold {
@@ -170,6 +242,8 @@ impl Leg for Cold {
 }
 
 pub fn run(ctx: &mut Ctx) {
+    let ng = ctx.share(ctx.tier.pick(96, 2_400));
+    ctx.run_leg::<Giants>(ng, false, 12);
     let nc = ctx.share(ctx.tier.pick(400, 8_000));
     ctx.run_leg::<Cold>(nc, false, 40);
     super::coldstart::infra_inconclusive(ctx);
@@ -186,6 +260,7 @@ pub fn replay(leg: &str, case: &serde_json::Value) -> Option<Result<Verdict, Str
         "iter-vs-model" => Some(crate::engine::replay_leg::<Iter>(case)),
         "python" => Some(crate::engine::replay_leg::<Python>(case)),
         "cold-start-threads" => Some(crate::engine::replay_leg::<Cold>(case)),
+        "giant-sequences" => Some(crate::engine::replay_leg::<Giants>(case)),
         _ => None,
     }
 }
